@@ -56,6 +56,15 @@ func init() {
 // deepDepths: ascending; the in-process workloads stop at 10^4.
 var deepDepths = []int{1000, 10000, 100000, 300000, 1 << 20, 1 << 21, 3 << 20}
 
+var deepDepthsQuick = []int{1000, 10000, 100000, 1 << 20, 3 << 20}
+
+func deepDepthsFor(tier string) []int {
+	if tier == "thorough" {
+		return deepDepths
+	}
+	return deepDepthsQuick
+}
+
 type deepShape struct {
 	name  string
 	build func(n int) string
@@ -194,13 +203,14 @@ var deepRoutes = []deepRoute{
 	parseRoute("parse.ValueWithConfig(Array only)", parse.Config{Array: true}),
 }
 
-// deepShapesFor: quick = every shape through parse.Value and the plain
-// loaders, two shapes through every other route; thorough = everything.
+// deepShapesFor: quick = every shape through parse.Value, four through the
+// plain loaders, two through every other route; thorough = everything.
 func deepShapesFor(tier string, rt deepRoute) []int {
 	var out []int
-	full := tier == "thorough" || rt.name == "parse.Value" || rt.name == "yaml.NewConfig" || rt.name == "json.NewConfig" || rt.name == "hjson.NewConfig"
+	full := tier == "thorough" || rt.name == "parse.Value"
+	loader := rt.name == "yaml.NewConfig" || rt.name == "json.NewConfig" || rt.name == "hjson.NewConfig"
 	for si, sh := range rt.shapes {
-		if full || sh.name == "open-lists" || sh.name == "closed-objects" {
+		if full || sh.name == "open-lists" || sh.name == "closed-objects" || (loader && (sh.name == "closed-lists" || sh.name == "closed-lists-then-reference")) {
 			out = append(out, si)
 		}
 	}
@@ -406,11 +416,11 @@ func runDeep(m *mon, r *rand.Rand, seed int64, tier string, k int) {
 	m.res.SetAdd("entry_point", rt.name)
 	m.res.SetAdd("h_route", rt.name)
 	for _, si := range deepShapesFor(tier, rt) {
-		runDeepShape(m, k, si)
+		runDeepShape(m, k, si, deepDepthsFor(tier))
 	}
 }
 
-func runDeepShape(m *mon, ri, si int) {
+func runDeepShape(m *mon, ri, si int, depths []int) {
 	res := m.res
 	rt := deepRoutes[ri]
 	sh := rt.shapes[si]
@@ -418,9 +428,9 @@ func runDeepShape(m *mon, ri, si int) {
 	res.SetAdd("input_class", "deep-nesting/"+sh.name)
 	res.SetAdd("h_shape", sh.name)
 	if m.verbose {
-		fmt.Printf("deep nesting: %s through %s at depths %v (in a probe process)\n", sh.name, rt.name, deepDepths)
+		fmt.Printf("deep nesting: %s through %s at depths %v (in a probe process)\n", sh.name, rt.name, depths)
 	}
-	rep := runProbe(ri, si, deepDepths)
+	rep := runProbe(ri, si, depths)
 	res.Ev("h_probe_processes", 1)
 	res.Eval(len(rep.started))
 	maxDone := 0
